@@ -3,8 +3,9 @@ C08 — Depth, recursion and call limits are exact and transparent (core evaluat
 XrayModel/Core.lean; the search limit lives in the sequence engines).
 -/
 import XrayProofs.CoreLimits
+import XrayProofs.CoreLimitsSim
 namespace XrayModel.C08
-open XrayModel.Core XrayModel.CoreLimits
+open XrayModel.Core XrayModel.CoreLimits XrayModel.CoreLimitsSim
 
 /-! ### 1. no limits: no violation, no counting -/
 
@@ -191,5 +192,130 @@ theorem depth_limit_exact (fuel : Nat) (cfg : Cfg) (height : Nat) (f : Func) (ds
     (args : List Val) (rec : Nat) (st : St) (l : Nat) (hl : cfg.depthLimit = some l) (hh : height + 1 ≥ l) :
     tramp (fuel + 1) cfg height (.clos f ds env) args rec st = (.viol .depth, st) := by
   simp [tramp, hl, hh]
+
+/-! ### 5. transparency: limits never change a result, they only stop the run
+
+Two runs with the same fuel are compared; `CfgLe cfg cfg'`: same `tco`, every limit of `cfg'` at least
+as high as in `cfg` or removed (`optLe`, `none` = ∞); `noLimits cfg`: all three limits removed. -/
+
+/-- **Raising or removing any limit never changes a non-violation result.** Let `cfg'` be weaker
+than `cfg` (pointwise, `none` = ∞), and let the two runs start from states with the same output
+(the counter of the second not behind the first, and its remaining call budget not smaller, when
+both count: trivially so for equal states). If the run under `cfg` ends in anything but a violation
+— value, error value, tail call, stuck, out of fuel — the run under `cfg'` with the same fuel ends
+in the same result (results carry no counters: literally equal) and the same output; for
+expressions, calls of function values, `eval_func_with_values`, the trampoline, declarations. -/
+theorem limit_monotone (cfg cfg' : Cfg) (hle : CfgLe cfg cfg') (fuel : Nat) (st st' : St) (ho : st'.out = st.out)
+    (hb : ∀ l l', cfg.callLimit = some l → cfg'.callLimit = some l' →
+      st.calls ≤ st'.calls ∧ st'.calls + l ≤ st.calls + l') :
+    (∀ fr e tail r s, eval fuel cfg fr e tail st = (r, s) → (∀ k, r ≠ .viol k) →
+      ∃ s', eval fuel cfg' fr e tail st' = (r, s') ∧ s'.out = s.out) ∧
+    (∀ fr c args tail r s, callVal fuel cfg fr c args tail st = (r, s) → (∀ k, r ≠ .viol k) →
+      ∃ s', callVal fuel cfg' fr c args tail st' = (r, s') ∧ s'.out = s.out) ∧
+    (∀ h c args r s, callUser fuel cfg h c args st = (r, s) → (∀ k, r ≠ .viol k) →
+      ∃ s', callUser fuel cfg' h c args st' = (r, s') ∧ s'.out = s.out) ∧
+    (∀ h c args rec r s, tramp fuel cfg h c args rec st = (r, s) → (∀ k, r ≠ .viol k) →
+      ∃ s', tramp fuel cfg' h c args rec st' = (r, s') ∧ s'.out = s.out) ∧
+    (∀ fr ds x s, evalDecls fuel cfg fr ds st = (x, s) → (∀ k, x ≠ .error (.viol k)) →
+      ∃ s', evalDecls fuel cfg' fr ds st' = (x, s') ∧ s'.out = s.out) := by
+  have W := weaker_of_le hle st.calls st'.calls hb
+  have H := simL W fuel
+  have hT := kappa_start hle st st' ho (fun l l' h h' => (hb l l' h h').1)
+  refine ⟨?_, ?_, ?_, ?_, ?_⟩
+  · intro fr e tail r s h hr
+    have := H.eval fr e tail st (by rw [h]; exact (not_viol_iff r).mpr hr)
+    rw [hT, h] at this
+    exact ⟨_, this, rfl⟩
+  · intro fr c args tail r s h hr
+    have := H.callVal fr c args tail st (by rw [h]; exact (not_viol_iff r).mpr hr)
+    rw [hT, h] at this
+    exact ⟨_, this, rfl⟩
+  · intro h c args r s hh hr
+    have := H.callUser h c args st (by rw [hh]; exact (not_viol_iff r).mpr hr)
+    rw [hT, hh] at this
+    exact ⟨_, this, rfl⟩
+  · intro h c args rec r s hh hr
+    have := H.tramp h c args rec st (by rw [hh]; exact (not_viol_iff r).mpr hr)
+    rw [hT, hh] at this
+    exact ⟨_, this, rfl⟩
+  · intro fr ds x s h hr
+    have := H.evalDecls fr ds st (by rw [h]; exact (ex_not_viol_iff x).mpr hr)
+    rw [hT, h] at this
+    exact ⟨_, this, rfl⟩
+
+/-- The same from one and the same start state, and for whole programs: a program (an expression, a
+call) that ends without violation under `cfg` ends in the same result with the same output under
+every weaker `cfg'`. -/
+theorem limit_monotone_same_start (cfg cfg' : Cfg) (hle : CfgLe cfg cfg') (fuel : Nat) :
+    (∀ fr e tail st r s, eval fuel cfg fr e tail st = (r, s) → (∀ k, r ≠ .viol k) →
+      ∃ s', eval fuel cfg' fr e tail st = (r, s') ∧ s'.out = s.out) ∧
+    (∀ h c args st r s, callUser fuel cfg h c args st = (r, s) → (∀ k, r ≠ .viol k) →
+      ∃ s', callUser fuel cfg' h c args st = (r, s') ∧ s'.out = s.out) ∧
+    (∀ ds x s, runProgram fuel cfg ds = (x, s) → (∀ k, x ≠ .error (.viol k)) →
+      ∃ s', runProgram fuel cfg' ds = (x, s') ∧ s'.out = s.out) := by
+  have hb : ∀ st : St, ∀ l l', cfg.callLimit = some l → cfg'.callLimit = some l' →
+      st.calls ≤ st.calls ∧ st.calls + l ≤ st.calls + l' := by
+    intro st l l' h h'
+    have := hle.call
+    rw [h, h'] at this
+    simp only [optLe] at this
+    omega
+  refine ⟨?_, ?_, ?_⟩
+  · intro fr e tail st r s h hr
+    exact (limit_monotone cfg cfg' hle fuel st st rfl (hb st)).1 fr e tail r s h hr
+  · intro h c args st r s hh hr
+    exact (limit_monotone cfg cfg' hle fuel st st rfl (hb st)).2.2.1 h c args r s hh hr
+  · intro ds x s h hr
+    exact (limit_monotone cfg cfg' hle fuel {} {} rfl (hb {})).2.2.2.2 _ ds x s h hr
+
+/-- **Limits are transparent.** `noLimits cfg` = `cfg` with all three limits removed. For every
+fuel, frame, argument, and states `st`, `st0` with the same output (the counters may differ): if the
+run under `cfg` from `st` ends in a result that is not a violation, the run under `noLimits cfg` from
+`st0` with the same fuel ends in the very same result, with the same output, its counter untouched. -/
+theorem limits_transparent (cfg : Cfg) (fuel : Nat) (st st0 : St) (ho : st0.out = st.out) :
+    (∀ fr e tail r s, eval fuel cfg fr e tail st = (r, s) → (∀ k, r ≠ .viol k) →
+      eval fuel (noLimits cfg) fr e tail st0 = (r, { out := s.out, calls := st0.calls })) ∧
+    (∀ fr c args tail r s, callVal fuel cfg fr c args tail st = (r, s) → (∀ k, r ≠ .viol k) →
+      callVal fuel (noLimits cfg) fr c args tail st0 = (r, { out := s.out, calls := st0.calls })) ∧
+    (∀ h c args r s, callUser fuel cfg h c args st = (r, s) → (∀ k, r ≠ .viol k) →
+      callUser fuel (noLimits cfg) h c args st0 = (r, { out := s.out, calls := st0.calls })) ∧
+    (∀ h c args rec r s, tramp fuel cfg h c args rec st = (r, s) → (∀ k, r ≠ .viol k) →
+      tramp fuel (noLimits cfg) h c args rec st0 = (r, { out := s.out, calls := st0.calls })) ∧
+    (∀ fr ds x s, evalDecls fuel cfg fr ds st = (x, s) → (∀ k, x ≠ .error (.viol k)) →
+      evalDecls fuel (noLimits cfg) fr ds st0 = (x, { out := s.out, calls := st0.calls })) := by
+  have H := simL (weaker_noLimits cfg st0.calls) fuel
+  have hT : T (fun _ => st0.calls) st = st0 := by unfold T; rw [← ho]
+  refine ⟨?_, ?_, ?_, ?_, ?_⟩
+  · intro fr e tail r s h hr
+    have := H.eval fr e tail st (by rw [h]; exact (not_viol_iff r).mpr hr)
+    rw [hT, h] at this; exact this
+  · intro fr c args tail r s h hr
+    have := H.callVal fr c args tail st (by rw [h]; exact (not_viol_iff r).mpr hr)
+    rw [hT, h] at this; exact this
+  · intro h c args r s hh hr
+    have := H.callUser h c args st (by rw [hh]; exact (not_viol_iff r).mpr hr)
+    rw [hT, hh] at this; exact this
+  · intro h c args rec r s hh hr
+    have := H.tramp h c args rec st (by rw [hh]; exact (not_viol_iff r).mpr hr)
+    rw [hT, hh] at this; exact this
+  · intro fr ds x s h hr
+    have := H.evalDecls fr ds st (by rw [h]; exact (ex_not_viol_iff x).mpr hr)
+    rw [hT, h] at this; exact this
+
+/-- Whole programs: a program that ends without violation under `cfg` gives the same bindings and
+the same output with every limit removed. -/
+theorem limits_transparent_program (cfg : Cfg) (fuel : Nat) (ds : List Decl) (x : Except Res Frame) (s : St)
+    (h : runProgram fuel cfg ds = (x, s)) (hr : ∀ k, x ≠ .error (.viol k)) :
+    runProgram fuel (noLimits cfg) ds = (x, { out := s.out, calls := 0 }) :=
+  (limits_transparent cfg fuel {} {} rfl).2.2.2.2 _ ds x s h hr
+
+-- the hypotheses are satisfiable: the one-call program under call limit 2 and depth limit 2 ends
+-- without violation (and so does it with the limits raised or removed, by the theorems)
+example : ∃ fr s, runProgram 10 { callLimit := some 2, depthLimit := some 2 } progOneCall = (.ok fr, s) ∧
+    CfgLe { callLimit := some 2, depthLimit := some 2 } { callLimit := some 7, depthLimit := none } :=
+  ⟨_, _, rfl, ⟨rfl, trivial, trivial, by simp [optLe]⟩⟩
+-- and the non-violation hypothesis is needed: under call limit 1 the same program is stopped
+example : (runProgram 10 { callLimit := some 1 } progOneCall).1 = .error (.viol .calls) ∧
+    ∃ fr, (runProgram 10 (noLimits { callLimit := some 1 }) progOneCall).1 = .ok fr := ⟨rfl, _, rfl⟩
 
 end XrayModel.C08
